@@ -22,6 +22,7 @@ import (
 	"github.com/nyaruka/goflow/envs"
 	"github.com/nyaruka/goflow/excellent/types"
 	"github.com/nyaruka/goflow/flows"
+	"github.com/nyaruka/goflow/flows/engine"
 	"github.com/nyaruka/goflow/flows/resumes"
 	"github.com/nyaruka/goflow/flows/triggers"
 
@@ -46,6 +47,10 @@ type sprintInput struct {
 	Nodes    []nodeSpec   `json:"nodes"`
 	Trigger  string       `json:"trigger"` // manual | msg
 	Resumes  []resumeSpec `json:"resumes"`
+	// the host stores the session after the first sprint and reads it back with these (edited) assets; same group list,
+	// queries may differ.  MaxResumes > 0: the engine's MaxResumesPerSession, so that a resume fails the session
+	Reload     *uniSpec `json:"reload_with,omitempty"`
+	MaxResumes int      `json:"max_resumes,omitempty"`
 	// the scenario is outside what the one-environment step model can represent (known finding F6d): oracles only
 	OracleOnly bool `json:"oracle_only,omitempty"`
 }
@@ -316,6 +321,21 @@ func genSprintInput(r *hx.Rand) *sprintInput {
 			break
 		}
 	}
+	if r.Chance(1, 10) && len(in.Resumes) > 0 {
+		// the assets are edited while the contact waits; sometimes the resume limit makes a later resume fail the session
+		re := *uni
+		re.Groups = append([]groupSpec{}, uni.Groups...)
+		for g := range re.Groups {
+			if re.Groups[g].Query != "" && r.Bool() {
+				q := genFragmentQuery(r, 1)
+				re.Groups[g].Query, re.Groups[g].Coq = q.q, q.coq
+			}
+		}
+		in.Reload = &re
+		if r.Chance(2, 3) {
+			in.MaxResumes = r.Range(1, 2)
+		}
+	}
 	return in
 }
 
@@ -347,6 +367,9 @@ func runSprintCase(res *hx.Result, in *sprintInput, sh *sharder) error {
 	flow, err := u.sa.Flows().Get(sprintFlowUUID)
 	if err != nil {
 		return err
+	}
+	if in.MaxResumes > 0 {
+		u.eng = engine.NewBuilder().WithMaxFieldChars(in.Universe.MaxChars).WithMaxResumesPerSession(in.MaxResumes).Build()
 	}
 	dates.SetNowFunc(dates.NewFixedNow(sprintBase))
 	defer dates.SetNowFunc(dates.NewFixedNow(fixedNow))
@@ -402,6 +425,23 @@ func runSprintCase(res *hx.Result, in *sprintInput, sh *sharder) error {
 	obs.acts = segment()
 	finishSprint(res, u, in, obs, session, sprint, sh)
 
+	if in.Reload != nil && session.Status() == flows.SessionStatusWaiting {
+		in.Reload.UseLoc = true
+		js, err := json.Marshal(session)
+		if err != nil {
+			return err
+		}
+		u2, err := buildUniverse(in.Reload, []json.RawMessage{u0.flowJSON(in.Nodes)})
+		if err != nil {
+			return err
+		}
+		u2.eng = u.eng
+		if session, err = u2.eng.ReadSession(u2.sa, js, noMissing); err != nil {
+			return err
+		}
+		u = u2
+	}
+
 	// ---- resumes
 	for i, rs := range in.Resumes {
 		if session.Status() != flows.SessionStatusWaiting {
@@ -444,11 +484,20 @@ func runSprintCase(res *hx.Result, in *sprintInput, sh *sharder) error {
 		default:
 			resume = resumes.NewRunExpiration(nil, refresh)
 		}
+		// the session has waited i+1 times so far: with MaxResumesPerSession <= that, this resume fails the session before
+		// anything of it is applied
+		failing := in.MaxResumes > 0 && i+1 >= in.MaxResumes
+		if failing {
+			obs.class = "sprint:resume-fails-session"
+			obs.kind, obs.refreshC, obs.inputTime = "resume-failed", nil, nil
+		}
 		sprint, err := session.Resume(resume)
 		if err != nil {
 			return err
 		}
-		if kind == "expiration" {
+		if failing {
+			next = len(in.Nodes)
+		} else if kind == "expiration" {
 			next = len(in.Nodes)
 		} else {
 			obs.acts = segment()
@@ -593,19 +642,23 @@ func finishSprint(res *hx.Result, u *universe, in *sprintInput, obs *sprintObs, 
 		if len(either) > 0 {
 			res.Fail("sprint:date-condition:session-vs-contact-timezone", in, fmt.Sprintf("after %s the two environments the engine evaluates queries in disagree, membership follows the one that ran last: %v", where, either))
 		}
-		// "a contact that becomes non-active also leaves all its static groups": the sprint itself changed the status
-		becameInactive := false
-		for _, e := range eventsJS {
-			switch e["type"] {
-			case "contact_status_changed":
-				becameInactive = e["status"] != "active"
-			case "contact_refreshed":
-				becameInactive = false
-			}
-		}
-		if becameInactive && session.Contact().Status() != flows.ContactStatusActive {
+		// "a contact that becomes non-active also leaves all its static groups", whenever the engine hands back a session
+		if session.Contact().Status() != flows.ContactStatusActive {
 			if st := staticGroupsOf(u, session.Contact()); len(st) > 0 {
-				res.Fail(obs.class+":static-groups-kept-by-non-active-contact", in, fmt.Sprintf("after %s the contact is %s and still in static groups %v", where, session.Contact().Status(), st))
+				becameInactive := false // made non-active by the sprint itself, or handed in like that
+				for _, e := range eventsJS {
+					switch e["type"] {
+					case "contact_status_changed":
+						becameInactive = e["status"] != "active"
+					case "contact_refreshed":
+						becameInactive = false
+					}
+				}
+				cls := obs.class + ":non-active-contact-handed-back-in-static-groups"
+				if becameInactive {
+					cls = obs.class + ":static-groups-kept-by-non-active-contact"
+				}
+				res.Fail(cls, in, fmt.Sprintf("after %s the contact is %s and still in static groups %v", where, session.Contact().Status(), st))
 			}
 		}
 		// "Every membership change made to get there is reported in a contact_groups_changed event"
@@ -613,7 +666,13 @@ func finishSprint(res *hx.Result, u *universe, in *sprintInput, obs *sprintObs, 
 			res.Fail(obs.class+":membership-change-not-reported", in, fmt.Sprintf("%s: groups before %v, after %v", where, obs.pre["groups"], post["groups"]))
 		}
 	} else {
-		res.OracleChecks++
+		res.OracleChecks += 2
+		// the announced change has to be acceptable to goflow's readers, or it cannot be replayed at all
+		if u.unreadable(obs.preC, nil) == "" {
+			if d := u.unreadable(session.Contact(), sprint.Events()); d != "" {
+				res.Fail(obs.class+":announced-change-rejected-by-readers", in, fmt.Sprintf("%s: %s", where, d))
+			}
+		}
 		// "replaying the emitted events in order over the contact as it was before ... reproduces exactly the contact
 		//  afterwards"
 		if got := replayAll(obs.pre, eventsJS, inputTime); !sameContact(got, post) {
@@ -637,6 +696,8 @@ func finishSprint(res *hx.Result, u *universe, in *sprintInput, obs *sprintObs, 
 		tcoq = fmt.Sprintf("(Some %d)", instantID(it, *obs.inputTime))
 	}
 	switch obs.kind {
+	case "resume-failed":
+		kind = "KResumeFailed"
 	case "start":
 		kind = "KStart " + tcoq
 	case "resume":
@@ -717,7 +778,24 @@ func sprintCorpus() []*sprintInput {
 	staleC := func() *contactSpec {
 		return &contactSpec{Name: "Jim", Lang: "eng", Status: "active", URNs: []string{staleURNs[2], "telegram:12345?channel=" + ch1}, Groups: []int{0}, Fields: map[string]string{}}
 	}
+	bobsUni := func(q, coq string) *uniSpec {
+		return &uniSpec{MaxChars: 640, UseLoc: true, Groups: []groupSpec{{Name: "S0"}, {Name: "Bobs", Query: q, Coq: coq}, {Name: "Named", Query: `name != ""`, Coq: "QNameSet"}}}
+	}
+	bobC := func(status string) *contactSpec {
+		return &contactSpec{Name: "Bob", Lang: "eng", Status: status, Groups: []int{0, 1, 2}, Fields: map[string]string{}}
+	}
 	return []*sprintInput{
+		// F6f (fixed): group Bobs is edited while Bob waits and the resume fails the session (resume limit): the session is
+		// handed back failed, and its contact must still have left Bobs, with an event
+		{Universe: bobsUni(`name = "bob"`, "QNameIs "+hx.Str("bob")), Contact: bobC("active"), Trigger: "manual", Nodes: []nodeSpec{{Wait: "msg"}, {}},
+			Resumes: []resumeSpec{{Kind: "msg"}}, Reload: bobsUni(`name = "jim"`, "QNameIs "+hx.Str("jim")), MaxResumes: 1},
+		// F6e (fixed): the host resumes with the contact it has, blocked and still listed in a static group; no action runs
+		{Universe: bobsUni(`name = "bob"`, "QNameIs "+hx.Str("bob")), Contact: bobC("active"), Trigger: "manual", Nodes: []nodeSpec{{Wait: "msg"}, {}},
+			Resumes: []resumeSpec{{Kind: "msg", Refresh: bobC("blocked")}}},
+		{Universe: bobsUni(`name = "bob"`, "QNameIs "+hx.Str("bob")), Contact: bobC("stopped"), Trigger: "msg", Nodes: []nodeSpec{{}}},
+		// add_contact_urn with a path whose "?..." does not parse as a query (the message `0788123456? ;)`)
+		{Universe: uniForStale(), Contact: staleC(), Trigger: "manual", Nodes: []nodeSpec{{Actions: []*modSpec{{Kind: "urns", Mode: "append", URNs: []string{"tel:0788123456? ;)"}}}, Wait: "msg"}, {}},
+			Resumes: []resumeSpec{{Kind: "msg"}}},
 		// set_contact_channel with no channel on a contact whose URN names a channel the assets no longer have
 		{Universe: uniForStale(), Contact: staleC(), Trigger: "manual", Nodes: []nodeSpec{{Actions: []*modSpec{{Kind: "channel", Channel: -1}}, Wait: "msg"}, {Actions: []*modSpec{{Kind: "channel", Channel: 0}}}},
 			Resumes: []resumeSpec{{Kind: "msg", Refresh: staleC()}}},
